@@ -50,7 +50,7 @@ macro_rules! api {
                     }
                     Ok(r.map(|(d, rem)| {
                         let off = input.len() - rem.len();
-                        (d.0, rem.len(), rem.as_ptr() == input[off..].as_ptr())
+                        (d.0, rem.len(), rem.is_empty() || rem.as_ptr() == input[off..].as_ptr())
                     }))
                 }),
                 from: Box::new(move |shape, input| {
